@@ -2,6 +2,7 @@
 // (Conv2DModel, PoolingLayer, ResizeLayer, CMACMap, HardClusteringModel, DiscreteKernel, MultiNomialDistribution,
 //  ValidatedSingleObjectiveResultSet, KeyValuePair).
 #include "c18_rt.h"
+#include "c18_behave.h"
 
 #include <shark/Core/Random.h>
 #include <shark/Core/ResultSets.h>
@@ -37,6 +38,17 @@ template<class M> void obsModel(Obs& o, M const& m, RealMatrix const& probes) {
 	if (ok) { RealMatrix out; m.eval(probes, out); o.mat("eval", out); }
 }
 
+template<class M> bool fits(M const& m, RealMatrix const& probes) { return m.inputShape().numElements() == probes.size2(); }
+
+// all advertised behaviours (eval, derivatives) of the original against the restored objects; see c18_behave.h
+template<class M> void behaviours(Ctx& c, M const& a, M const& other, M const& dflt, RealMatrix const& probes, M const* reparam = 0) {
+	std::vector<Target<M> > ts;
+	if (reparam) ts.push_back(Target<M>("reparam", *reparam, fits(*reparam, probes)));
+	ts.push_back(Target<M>("default", dflt, fits(dflt, probes)));
+	ts.push_back(Target<M>("other", other, fits(other, probes)));
+	compareModelBehaviour(c, a, fits(a, probes), ts, probes);
+}
+
 // ---------------- Conv2DModel ----------------  variant: zeropad | valid
 void convCase(Ctx& c, std::string const& variant) {
 	Prng r(c.seed);
@@ -47,9 +59,14 @@ void convCase(Ctx& c, std::string const& variant) {
 	a.setParameterVector(randVec(r, a.numberOfParameters()));
 	b.setParameterVector(randVec(r, b.numberOfParameters()));
 	RealMatrix probes = randMat(r, 2, h * w * ch);
+	// same structure, other parameters (a stale cache of the right size is the most silent failure); default constructed
+	Conv2DModel<RealVector, TanhNeuron> e(Shape({h, w, ch}), Shape({nf, 3, 3}), pad), d;
+	e.setParameterVector(randVec(r, e.numberOfParameters()));
 	obsModel(c.A, a, probes);
 	c.transfer(a, b);
 	obsModel(c.B, b, probes);
+	c.transfer(a, e); c.transfer(a, d);
+	behaviours(c, a, b, d, probes, &e);
 }
 
 // ---------------- PoolingLayer ----------------
@@ -59,9 +76,12 @@ void poolCase(Ctx& c, std::string const&) {
 	PoolingLayer<RealVector> a(Shape({h, w, ch}), Shape({2, 2}));
 	PoolingLayer<RealVector> b(Shape({9, 6, 3}), Shape({3, 3}));
 	RealMatrix probes = randMat(r, 2, h * w * ch);
+	PoolingLayer<RealVector> d;
 	obsModel(c.A, a, probes);
 	c.transfer(a, b);
 	obsModel(c.B, b, probes);
+	c.transfer(a, d);
+	behaviours(c, a, b, d, probes);
 }
 
 // ---------------- ResizeLayer ----------------  (Interpolation has the single value Spline in this tree)
@@ -71,9 +91,12 @@ void resizeCase(Ctx& c, std::string const&) {
 	ResizeLayer<RealVector> a(Shape({h, w, ch}), Shape({h + 2, w + 1}));
 	ResizeLayer<RealVector> b(Shape({7, 8, 3}), Shape({4, 4}));
 	RealMatrix probes = randMat(r, 2, h * w * ch);
+	ResizeLayer<RealVector> d;
 	obsModel(c.A, a, probes);
 	c.transfer(a, b);
 	obsModel(c.B, b, probes);
+	c.transfer(a, d);
+	behaviours(c, a, b, d, probes);
 }
 
 // ---------------- CMACMap ----------------  variant: regular | randomtiles
@@ -87,9 +110,12 @@ void cmacCase(Ctx& c, std::string const& variant) {
 	a.setParameterVector(randVec(r, a.numberOfParameters()));
 	b.setParameterVector(randVec(r, b.numberOfParameters()));
 	RealMatrix probes = randMat(r, 4, in);
+	CMACMap d;
 	obsModel(c.A, a, probes);
 	c.transfer(a, b);
 	obsModel(c.B, b, probes);
+	c.transfer(a, d);
+	behaviours(c, a, b, d, probes);
 }
 
 // ---------------- HardClusteringModel over Centroids ----------------
@@ -113,6 +139,13 @@ void clusteringCase(Ctx& c, std::string const&) {
 		o.b("evalPossible", ok);
 		if (ok) { UIntVector out; m.eval(probes, out); o.vec("eval", out); }
 	}
+	Centroids cd;                              // default constructed clustering
+	HardClusteringModel<RealVector> dm(&cd);
+	c.transfer(a, dm);
+	std::vector<Target<HardClusteringModel<RealVector> > > ts;
+	ts.push_back(Target<HardClusteringModel<RealVector> >("default", dm, cd.centroids().numberOfElements() > 0 && dataDimension(cd.centroids()) == d));
+	ts.push_back(Target<HardClusteringModel<RealVector> >("other", b, cb.centroids().numberOfElements() > 0 && dataDimension(cb.centroids()) == d));
+	compareModelBehaviour(c, a, true, ts, probes);
 }
 
 // ---------------- DiscreteKernel ----------------
@@ -130,6 +163,15 @@ void discreteKernelCase(Ctx& c, std::string const&) {
 		for (std::size_t i = 0; i != n; ++i) for (std::size_t j = 0; j != n; ++j)
 			if (i < k.size() && j < k.size()) o.d(Obs::idx("k", i, j), k.eval(i, j));
 	}
+	// all advertised behaviours on fixed index batches; minimal fresh target: the 1x1 kernel
+	DiscreteKernel dk(RealMatrix(1, 1, 1.0));
+	c.transfer(a, dk);
+	blas::vector<std::size_t> X(3), Y(2);
+	for (std::size_t i = 0; i != 3; ++i) X(i) = (i * 2 + 1) % n;
+	for (std::size_t i = 0; i != 2; ++i) Y(i) = (i + n - 1) % n;
+	Obs ba = kernelBehaviour<std::size_t>(a, X, Y);
+	pairBehaviour(c, "default", ba, kernelBehaviour<std::size_t>(dk, X, Y, dk.size() == n));
+	pairBehaviour(c, "other", ba, kernelBehaviour<std::size_t>(b, X, Y, b.size() == n));
 }
 
 // ---------------- MultiNomialDistribution ----------------
